@@ -32,12 +32,17 @@ def run_stream(ctx, name, ops, n, backend="naive", variant="plain", exhaustive_o
 
 
 def optional_part(ctx, module, func, *args, **kw):
-    """Call a part owned by another engine if it exists; record whether it ran."""
+    """Call a part owned by another engine. Every part named by the engines exists in this tree, so a
+    part that cannot be imported or has no such function is a broken installation: nothing it would have
+    decided is shown to hold, which is reported (never skipped silently)."""
     try:
         m = importlib.import_module("engines." + module)
         f = getattr(m, func)
     except (ImportError, AttributeError) as e:
         ctx.cov.setdefault("parts_not_available", []).append("%s.%s (%s)" % (module, func, e))
+        ctx.violation("part-missing", {"kind": "check-internal-error", "part": "%s.%s" % (module, func), "error": str(e),
+                                       "witness": "part-missing :: %s.%s" % (module, func)}, False,
+                      "the part %s.%s of this check could not be loaded (%s): what it decides is not shown to hold" % (module, func, e))
         return None
     return f(ctx, *args, **kw)
 
